@@ -100,7 +100,7 @@ def handler(spec, guard):
 
 
 def interpret(case, ctx):
-    sim = U.Sim(tape=[], granularity="blocking", max_steps=20000)
+    sim = U.Sim(tape=case.get("tape", []), granularity="blocking", max_steps=20000)
     try:
         with sim:
             _run(case, ctx, sim)
@@ -120,7 +120,10 @@ def _run(case, ctx, sim):
         n = S.fix_legacy_rows(sim.net.add_node(a, versions=tuple(spec["versions"])))
         n.on_request = handler(spec, guard)
     prof = ExecutionProfile(load_balancing_policy=U.fixed_plan_policy())
-    kw = dict(execution_profiles={EXEC_PROFILE_DEFAULT: prof}, allow_beta_protocol_version=allow_beta)
+    from cassandra.policies import ConstantReconnectionPolicy
+    # (the default exponential policy draws jitter from `random`; a constant schedule keeps the history deterministic)
+    kw = dict(execution_profiles={EXEC_PROFILE_DEFAULT: prof}, allow_beta_protocol_version=allow_beta,
+              reconnection_policy=ConstantReconnectionPolicy(1.0))
     if explicit:
         cluster = sim.make_cluster(addrs, protocol_version=start, **kw)
     else:
@@ -137,6 +140,10 @@ def _run(case, ctx, sim):
     except Exception as e:  # noqa -- "gives up with an error"
         exc = e
     sim.settle()
+    if session is not None:
+        # let the reconnectors of hosts that failed during the negotiation have a go
+        sim.advance(2.5)
+        sim.settle()
 
     # ---- attempts of the control connection: first frame of every connection, in order
     first = {}
@@ -211,14 +218,29 @@ def _run(case, ctx, sim):
             if cluster.protocol_version != negotiated:
                 ctx.fail(["C41.outcome", "cluster-version"], "negotiated %d but Cluster.protocol_version is %r" % (
                     negotiated, cluster.protocol_version))
-            later = [v for (_a, v, _c, _r) in other]
-            if any(v != negotiated for v in later):
-                ctx.fail(["C41.after", "pool-version", "up" if any(v > negotiated for v in later) else "down"],
-                         "pool connections opened with versions %r after negotiating %d" % (later, negotiated))
+            # every connection opened once the negotiation is over uses the negotiated version; those opened while it
+            # was still going on (reconnection attempts to contact points that failed) use a version of the chain, and
+            # over all connections the version never goes up again
             last_ctrl = [i for i in order if first[i][2]][-1]
-            allv = set(r["version"] for (_n, c, r) in sim.net.requests if c.sim_id >= last_ctrl)
-            if allv - {negotiated}:
-                ctx.fail(["C41.after", "frame-version"], "frames with versions %r after negotiating %d" % (sorted(allv), negotiated))
+            pos = order.index(last_ctrl)
+            failed_before = set(a for (a, v, c, _r) in [first[i] for i in order[:pos]] if c)
+            after = [(first[i][0], first[i][1]) for i in order[pos + 1:]]
+            bad = [(a, v) for (a, v) in after if v != negotiated]
+            if bad:
+                up = any(v > negotiated for (_a, v) in bad)
+                who = "host-that-failed-during-negotiation" if all(a in failed_before for (a, _v) in bad) else "any-host"
+                ctx.fail(["C41.after", "pool-version", "up" if up else "down", who],
+                         "after negotiating v%d connections were opened with %r (all connections in order: %r)" % (
+                             negotiated, bad, [(first[i][0], first[i][1]) for i in order]))
+            else:
+                allv = set(r["version"] for (_n, c, r) in sim.net.requests if c.sim_id >= last_ctrl)
+                if allv - {negotiated}:
+                    ctx.fail(["C41.after", "frame-version"], "frames with versions %r after negotiating %d" % (sorted(allv), negotiated))
+            allseq = [first[i][1] for i in order[:pos + 1]]
+            for j in range(1, len(allseq)):
+                if allseq[j] > allseq[j - 1]:
+                    ctx.fail(["C41.step-up", "during-negotiation"], "connection versions in order %r" % (allseq,))
+                    break
     else:
         if exc is None:
             ctx.fail(["C41.outcome", "connected-without-support"], "no server accepts a version of %r but connect returned" % (ch,))
@@ -276,7 +298,8 @@ def s_case(draw):
     start = draw(st.sampled_from(ALL + [0x42, 0x42, 5, 4]))
     return {"start": start, "explicit": draw(st.sampled_from([False, False, True])),
             "allow_beta": draw(st.sampled_from([False, False, True])),
-            "nodes": draw(st.lists(s_node(), min_size=1, max_size=3))}
+            "nodes": draw(st.lists(s_node(), min_size=1, max_size=3)),
+            "tape": draw(st.lists(st.integers(0, 3), max_size=6))}
 
 
 def parts(tier):
